@@ -1147,6 +1147,314 @@ def operator_stream(ctx, deep=False, model=True):
 
 
 # ---------------------------------------------------------------------------
+# DERIVED OPERATORS (round 4): ResizingOperator.inverse / .derivative / .adjoint (raw)
+# model: Model/ResizeOperator.lean (ROp.call/.inverse/.derivative/.adjointCall, inverseOffsets)
+# theorems: C16.inverse_left_inverse, inverse_right_inverse, derivative_is_linear_part,
+#           derivative_inverse_shape, inverse_offset_same, overlap_copied_nd, crop_extend_id_nd
+
+PAD_ERRS = ('err:order0-empty', 'err:order1-short', 'err:periodic-too-long',
+            'err:symmetric-too-long')
+
+
+def derived_cases(ctx, count):
+    rng = ctx.rng
+    for _ in range(count):
+        ndim = rng.choice([1, 1, 2, 2, 3])
+        mode = rng.choice(MODES)
+        variant = rng.choice(['ran_shp+offset', 'ran_shp+offset', 'range', 'range', 'ran_shp'])
+        shape_kind = rng.choice(['extend', 'extend', 'restrict', 'mixed', 'mixed'])
+        axes = []
+        if shape_kind == 'mixed':
+            ndim = max(ndim, 2)
+        first = rng.choice(['grow', 'shrink'])
+        for ax in range(ndim):
+            hi_n = 5 if ndim < 3 else 4
+            n = rng.randint(1, hi_n)
+            kind = rng.choice({'extend': ['grow', 'grow', 'grow', 'same'],
+                               'restrict': ['shrink', 'shrink', 'shrink', 'same'],
+                               'mixed': ['grow', 'shrink', 'same']}[shape_kind])
+            if shape_kind == 'mixed' and ax < 2:
+                kind = first if ax == 0 else ('shrink' if first == 'grow' else 'grow')
+            if n == 1 and (kind == 'shrink' or (kind == 'grow' and mode in ('symmetric', 'order1')
+                                                and rng.random() < 0.8)):
+                n = rng.randint(2, hi_n)
+            m, off = n, 0
+            if kind == 'grow':
+                lim = {'periodic': n, 'symmetric': n - 1, 'order0': 3,
+                       'order1': 3 if n >= 2 else 0}.get(mode, 3)
+                l, r = rng.randint(0, lim), rng.randint(0, lim)
+                if l + r == 0 and lim > 0:
+                    l = 1
+                if variant == 'ran_shp':
+                    tot = l + r
+                    l, r = tot - tot // 2, tot // 2
+                m, off = n + l + r, l
+            elif kind == 'shrink':
+                m = rng.randint(1, n - 1)
+                off = rng.randint(0, n - m)
+                if variant == 'ran_shp':
+                    off = -((m - n) - (m - n) // 2)
+            if m == n:
+                off = 0
+            bdry = rng.choice([(False, False)] * 4 + [(True, True), (True, False), (False, True)])
+            if min(n, m) < 2:
+                bdry = (False, False)
+            axes.append(dict(n=n, m=m, off=off, lo=str(Fraction(rng.randint(-8, 8), 4)),
+                             cell=str(rng.choice(DYADIC_CELLS)), bdry=list(bdry)))
+        if mode == 'constant':
+            c = rng.choice([0, 1, -2, 3])
+        else:
+            c = rng.choice([0, 0, 2])
+        yield dict(kind='derived', mode=mode, variant=variant, c=c, axes=axes,
+                   dtype=rng.choice(['float64'] * 4 + ['float32']), vseed=rng.getrandbits(32))
+
+
+def run_derived_case(ctx, case):
+    """Returns (problems [(tag, text)], model lines, impl canonical answers, facts)."""
+    import odl
+    problems = []
+
+    def bad(tag, text):
+        problems.append((tag, text))
+    axes = case['axes']
+    ndim = len(axes)
+    n = [a['n'] for a in axes]
+    m = [a['m'] for a in axes]
+    offs = [a['off'] for a in axes]
+    lo = [Fraction(a['lo']) for a in axes]
+    cell = [Fraction(a['cell']) for a in axes]
+    mode, variant, c, dt = case['mode'], case['variant'], case['c'], case['dtype']
+    flags = [tuple(bool(b) for b in a['bdry']) for a in axes]
+    ran_flags = flags if variant == 'range' else [(False, False)] * ndim
+    half = Fraction(1, 2)
+    hi = [lo[k] + (n[k] - half * (int(flags[k][0]) + int(flags[k][1]))) * cell[k]
+          for k in range(ndim)]
+    r = random.Random(case['vseed'])
+    lines, answers, facts = [], [], {}
+
+    def nob(fl_):
+        return fl_ if ndim > 1 else fl_[0]
+    try:
+        dom = odl.uniform_discr([float(v) for v in lo], [float(v) for v in hi], n,
+                                nodes_on_bdry=nob(flags), dtype=dt)
+        kw = dict(pad_mode=mode, pad_const=c)
+        if variant == 'ran_shp':
+            op = odl.ResizingOperator(dom, ran_shp=m, **kw)
+        elif variant == 'ran_shp+offset':
+            op = odl.ResizingOperator(dom, ran_shp=m, offset=list(offs), **kw)
+        else:
+            rlo, rhi = [], []
+            for k in range(ndim):
+                sgn = -1 if m[k] >= n[k] else 1
+                rlo.append(lo[k] + sgn * offs[k] * cell[k])
+                rhi.append(rlo[-1] + (m[k] - half * (int(flags[k][0]) + int(flags[k][1])))
+                           * cell[k])
+            ran_in = odl.uniform_discr([float(v) for v in rlo], [float(v) for v in rhi], m,
+                                       nodes_on_bdry=nob(flags), dtype=dt)
+            op = odl.ResizingOperator(dom, ran_in, **kw)
+        ran = op.range
+    except Exception as e:  # noqa
+        return [('construction', 'construction failed: {}: {}'.format(
+            type(e).__name__, str(e)[:200]))], [], [], facts
+    want = [o if mm != nn else 0 for o, nn, mm in zip(offs, n, m)]
+    nonlinear = mode == 'constant' and c != 0
+    small = int(np.prod(n)) * int(np.prod(m)) <= 600
+    head = 'mode={} shape={} newshape={} off={} c={}'.format(mode, fl(n), fl(m), fl(want), fs(c))
+    x = rand_data(r, tuple(n), dt)
+    x2 = rand_data(r, tuple(n), dt)
+    y = rand_data(r, tuple(m), dt)
+
+    def guarded(f):
+        try:
+            return 'ok', np.array(f().asarray(), copy=True)
+        except Exception as e:  # noqa
+            return err_kind(e), None
+    try:
+        if [int(o) for o in op.offset] != want:
+            bad('offset', 'op.offset = {} but {} cells are added/removed on the left'.format(
+                list(op.offset), want))
+        st_fx, fx = guarded(lambda: op(dom.element(x)))
+        exp_fx = expected_forward(x, tuple(m), want, mode, c)
+        if st_fx != 'ok' or exp_fx is None or ilist(fx) != ilist(exp_fx):
+            bad('call', 'op(x) [{}] differs from the np.pad-style expectation'.format(st_fx))
+        # ---------------- inverse
+        try:
+            inv = op.inverse
+        except Exception as e:  # noqa
+            inv = None
+            bad('inverse-construction', 'op.inverse raises {}: {}'.format(
+                type(e).__name__, str(e)[:160]))
+        if inv is not None:
+            if inv.domain != ran or inv.range != dom:
+                bad('inverse-spaces', 'inverse domain/range are not range/domain of the operator')
+            if inv.pad_mode != mode:
+                bad('inverse-pad-mode', 'inverse.pad_mode = {!r}, operator has {!r}'.format(
+                    inv.pad_mode, mode))
+            if complex(inv.pad_const) != complex(c):
+                bad('inverse-pad-const', 'inverse.pad_const = {}, operator has {}'.format(
+                    inv.pad_const, c))
+            ioff = [int(o) for o in inv.offset]
+            if ioff != want:
+                bad('inverse-offset', 'inverse.offset = {} but the operator has {}'.format(
+                    ioff, want))
+            exp_iy = expected_forward(y, tuple(n), want, mode, c)
+            st_iy, iy = guarded(lambda: inv(ran.element(y)))
+            facts['inverse_refused'] = exp_iy is None
+            if exp_iy is None:
+                if st_iy not in PAD_ERRS:
+                    bad('inverse-call', 'inverse(y) needs an inadmissible padding ({} -> {}, '
+                        'offsets {}) but answered {}'.format(m, n, want, st_iy))
+            elif st_iy != 'ok' or ilist(iy) != ilist(exp_iy):
+                bad('inverse-call', 'inverse(y) [{}] = {} differs from the np.pad-style resize '
+                    '{} of y with the operator\'s mode and pad_const'.format(
+                        st_iy, None if iy is None else iy.ravel().tolist()[:8],
+                        exp_iy.ravel().tolist()[:8]))
+            st_b, back = guarded(lambda: inv(op(dom.element(x))))
+            if all(mm >= nn for nn, mm in zip(n, m)):
+                if st_b != 'ok' or ilist(back) != ilist(x):
+                    bad('inverse-left', 'inverse(op(x)) != x although no axis shrinks [{}]'
+                        .format(st_b))
+            if all(mm <= nn for nn, mm in zip(n, m)) and st_iy == 'ok':
+                st_f, fwd = guarded(lambda: op(inv(ran.element(y))))
+                if st_f != 'ok' or ilist(fwd) != ilist(y):
+                    bad('inverse-right', 'op(inverse(y)) != y although no axis grows [{}]'
+                        .format(st_f))
+            try:
+                ii = inv.inverse
+                if ii.domain != dom or ii.range != ran or \
+                        ilist(ii(dom.element(x)).asarray()) != ilist(fx):
+                    bad('inverse-inverse', 'inverse.inverse does not act like the operator')
+            except Exception as e:  # noqa
+                bad('inverse-inverse', 'inverse.inverse raises {}: {}'.format(
+                    type(e).__name__, str(e)[:120]))
+            # model
+            lines.append('invoff lo={} hi={} n={} bl={} br={} rlo={} rhi={} rn={} rbl={} rbr={}'
+                         .format(fl(lo), fl(hi), fl(n), fl([int(f[0]) for f in flags]),
+                                 fl([int(f[1]) for f in flags]),
+                                 fl([core.frac(v) for v in ran.min_pt]),
+                                 fl([core.frac(v) for v in ran.max_pt]), fl(m),
+                                 fl([int(f[0]) for f in ran_flags]),
+                                 fl([int(f[1]) for f in ran_flags])))
+            answers.append('ok off=' + ','.join(str(o) for o in ioff))
+            if small:
+                lines.append('opinv {} data={}'.format(head, fl(y.ravel().tolist())))
+                answers.append('ok r=' + fl(iy.ravel().tolist()) if st_iy == 'ok' else st_iy)
+                lines.append('opinv2 {} data={}'.format(head, fl(x.ravel().tolist())))
+                answers.append('ok r=' + fl(back.ravel().tolist()) if st_b == 'ok' else st_b)
+        # ---------------- derivative
+        facts['nonlinear'] = nonlinear
+        if bool(op.is_linear) != (not nonlinear):
+            bad('is-linear', 'is_linear = {} for pad_mode={} pad_const={}'.format(
+                op.is_linear, mode, c))
+        d = op.derivative(dom.element(x2))
+        if nonlinear:
+            if d is op:
+                bad('derivative', 'derivative of the non-linear operator is the operator itself')
+            if not d.is_linear or complex(d.pad_const) != 0 or d.pad_mode != 'constant':
+                bad('derivative', 'derivative is not a linear constant-padding operator: '
+                    'pad_mode={} pad_const={} is_linear={}'.format(
+                        d.pad_mode, d.pad_const, d.is_linear))
+            if d.domain != dom or d.range != ran or [int(o) for o in d.offset] != want:
+                bad('derivative', 'derivative changes spaces or offsets')
+        elif d is not op:
+            bad('derivative', 'derivative of a linear operator is not the operator itself')
+        st_dx, dx = guarded(lambda: d(dom.element(x - x2)))
+        st_f2, fx2 = guarded(lambda: op(dom.element(x2)))
+        if 'ok' not in (st_dx, st_f2) or st_dx != st_f2 or fx is None or \
+                ilist(fx - fx2) != ilist(dx):
+            bad('derivative-difference', 'op(x) - op(x\') != derivative(x - x\'): {} vs {}'.format(
+                None if fx is None or fx2 is None else (fx - fx2).ravel().tolist()[:8],
+                None if dx is None else dx.ravel().tolist()[:8]))
+        st_d1, d1 = guarded(lambda: d(dom.element(x)))
+        if small:
+            lines.append('opderiv {} data={}'.format(head, fl(x.ravel().tolist())))
+            tail = 'same={} c={} lin={} oplin={}'.format(
+                int(d is op), fs(core.frac(float(np.real(d.pad_const)))), int(bool(d.is_linear)),
+                int(bool(op.is_linear)))
+            answers.append('ok {} r={}'.format(tail, fl(d1.ravel().tolist())) if st_d1 == 'ok'
+                           else '{} {}'.format(st_d1, tail))
+        # ---------------- adjoint (raw: default weighting, no boundary fractions)
+        try:
+            adj = op.adjoint
+            st_adj = 'ok'
+        except NotImplementedError:
+            adj, st_adj = None, 'not-implemented'
+        except Exception as e:  # noqa
+            adj, st_adj = None, 'err:' + type(e).__name__
+        if nonlinear and st_adj != 'not-implemented':
+            bad('adjoint-nonlinear', 'non-linear operator: .adjoint answered ' + st_adj)
+        if not nonlinear and st_adj != 'ok':
+            bad('adjoint-linear', 'linear operator: .adjoint answered ' + st_adj)
+        plain = not any(any(f) for f in flags)
+        if adj is not None and plain:
+            st_a, ay = guarded(lambda: adj(ran.element(y)))
+            if st_a != 'ok' or fx is None or \
+                    Fraction(float(np.sum(fx * y))) != Fraction(float(np.sum(x * ay))):
+                bad('adjoint-transpose', 'sum(op(x) * y) != sum(x * adjoint(y)) with equal '
+                    'cell volumes and no boundary fractions [{}]'.format(st_a))
+            if small:
+                lines.append('opadjraw {} data={}'.format(head, fl(y.ravel().tolist())))
+                answers.append('ok r=' + fl(ay.ravel().tolist()) if st_a == 'ok' else st_a)
+        elif adj is None and small:
+            lines.append('opadjraw {} data={}'.format(head, fl(y.ravel().tolist())))
+            answers.append(st_adj)
+    except Exception as e:  # noqa
+        bad('exception', 'unexpected {}: {}'.format(type(e).__name__, str(e)[:200]))
+    return problems, lines, answers, facts
+
+
+def derived_key(case, tag):
+    cls = ['same' if a['m'] == a['n'] else ('grow' if a['m'] > a['n'] else 'shrink')
+           for a in case['axes']]
+    return ('ResizingOperator derived {} variant={} mode={} axes={} pad_const={} dtype={}'.format(
+        tag, case['variant'], case['mode'], '/'.join(cls),
+        'zero' if case['c'] == 0 else 'nonzero', case['dtype']))
+
+
+def derived_stream(ctx, deep=False, model=True):
+    count = 250 if (ctx.quick and not deep) else 2500
+    all_lines, all_answers, owners = [], [], []
+    for case in derived_cases(ctx, count):
+        problems, lines, answers, facts = run_derived_case(ctx, case)
+        seen = set()
+        for tag, text in problems:
+            if tag not in seen:
+                seen.add(tag)
+                ctx.violation(derived_key(case, tag), text[:600], dict(case, tag=tag))
+        sig = tuple((a['m'] > a['n']) - (a['m'] < a['n']) for a in case['axes'])
+        shape_cls = ('same' if not any(sig) else 'extend' if min(sig) >= 0 else
+                     'restrict' if max(sig) <= 0 else 'mixed')
+        ctx.case(('derived', case['variant'], case['mode'], sig, case['c'] != 0,
+                  facts.get('inverse_refused')),
+                 sample={'case': case} if ctx.rng.random() < 0.01 else None)
+        ctx.hit('derived/inverse/{}/{}'.format(case['mode'], shape_cls))
+        ctx.hit('derived/variant/' + case['variant'])
+        ctx.hit('derived/ndim={}'.format(len(case['axes'])))
+        if facts.get('inverse_refused'):
+            ctx.hit('derived/inverse/refused-padding')
+        if facts.get('nonlinear'):
+            ctx.hit('derived/derivative/nonlinear')
+            ctx.hit('derived/adjoint/not-implemented')
+        elif 'nonlinear' in facts:
+            ctx.hit('derived/derivative/linear/' + case['mode'])
+        if any(any(a['bdry']) for a in case['axes']):
+            ctx.hit('derived/nodes-on-bdry')
+        all_lines += lines
+        all_answers += answers
+        owners += [case] * len(lines)
+    if model and all_lines:
+        outs = core.run_driver('C16', all_lines)
+        for line, impl, ans, case in zip(all_lines, all_answers, outs, owners):
+            kind = line.split(' ', 1)[0]
+            ctx.hit(kind + '-model')
+            if impl.startswith('err:'):
+                ctx.hit('derived/' + kind + '/' + impl.split(' ', 1)[0])
+            if impl != ans:
+                ctx.disagree({'kind': kind, 'line': line, 'case': case}, impl, ans,
+                             stream='derived operators (inverse/derivative/adjoint)')
+
+
+# ---------------------------------------------------------------------------
 # RESULT OWNERSHIP and VALIDATION
 
 def ownership_problems(case, arr, res):
@@ -1856,6 +2164,7 @@ def run(ctx):
     nppad_stream(ctx)
     array_stream(ctx)
     operator_stream(ctx)
+    derived_stream(ctx)
     ownership_stream(ctx)
     validation_stream(ctx)
     padconst_stream(ctx)
@@ -1878,6 +2187,14 @@ def run(ctx):
     expected += ['padconst-model']
     expected += ['history/kwargs-reuse', 'history/operator-reuse', 'history/array-reuse',
                  'history-model']
+    expected += ['derived/inverse/{}/{}'.format(m_, k_) for m_ in MODES
+                 for k_ in ('extend', 'restrict', 'mixed')]
+    expected += ['derived/derivative/linear/' + m_ for m_ in MODES]
+    expected += ['derived/derivative/nonlinear', 'derived/adjoint/not-implemented',
+                 'derived/inverse/refused-padding', 'derived/nodes-on-bdry', 'derived/ndim=3',
+                 'opinv-model', 'opinv2-model', 'opderiv-model', 'opadjraw-model', 'invoff-model',
+                 'derived/variant/range', 'derived/variant/ran_shp',
+                 'derived/variant/ran_shp+offset']
     expected_err = ['err:offset', 'err:padconst-adjoint', 'err:order0-empty', 'err:order1-short',
                     'err:periodic-too-long', 'err:symmetric-too-long']
     unhit = [b for b in expected if not ctx.branches.get(b)] + \
@@ -1896,6 +2213,7 @@ def search(ctx, broken):
     try:
         array_stream(ctx, deep=True, model=False)
         operator_stream(ctx, deep=True, model=False)
+        derived_stream(ctx, deep=True, model=False)
         history_stream(ctx, deep=True, model=False)
         padconst_stream(ctx, deep=True, model=False)
         ownership_stream(ctx)
@@ -1918,6 +2236,10 @@ def replay(ctx, case):
         return '; '.join(problems) if problems else None
     if case.get('kind') == 'operator':
         problems, _, _ = run_op_case(ctx, case)
+        problems = [t for tag, t in problems if case.get('tag') in (None, tag)]
+        return '; '.join(problems) if problems else None
+    if case.get('kind') == 'derived':
+        problems, _, _, _ = run_derived_case(ctx, case)
         problems = [t for tag, t in problems if case.get('tag') in (None, tag)]
         return '; '.join(problems) if problems else None
     if case.get('kind') in ('validation', 'ownership-op'):
